@@ -118,14 +118,26 @@ DispoOk(i, op, m) ==
          [] ph[i] \in {"got", "killed"} ->                                   \* returned unprocessed:
               op = "reject" /\ (wc.forced \/ (wc.ml > 0 /\ started >= wc.ml))  \*   forced shutdown / over the messages limit
          [] OTHER -> FALSE
-RetryOk(i, m) ==
-    (m.tried # 0) =>                                                          \* a retry re-queue
-        /\ m.tried = dv[i].tried + 1
-        /\ (m.forced = 0 => m.tried <= dv[i].max)
-        /\ m.due >= m.bo                                                      \* not before the policy's back-off
-        /\ m.exp = m.oldexp                                                   \* ttl clock not restarted
-RecurOk(i, m) ==
-    (m.tried = 0 /\ dv[i].rec) =>                                             \* successor of a recurring job
+(* C04: a failed attempt with budget left is re-queued with the counter +1 (never beyond max     *)
+(* unless forced), not before the policy's back-off, ttl clock untouched; when the budget is      *)
+(* spent the chain ends (nack, or reschedule for a recurring job); a success ends it with ack.    *)
+RetryOk(i, op, m) ==
+    /\ ph[i] = "ended" =>
+          LET d == Disposition(out[i], dv[i].tried, dv[i].max, dv[i].rec) IN
+          /\ op = OpOf(d)
+          /\ d = "retry" => (op = "requeue" /\ m.tried = dv[i].tried + 1 /\ m.tried <= dv[i].max
+                             /\ m.due >= m.bo /\ m.exp = m.oldexp)
+          /\ d = "resched" => m.tried = 0                  \* N+1 attempts *per scheduling*
+    /\ (ph[i] = "run" /\ op = "requeue" /\ m.tried # 0) =>                   \* eager retry / force_retry
+          /\ m.tried = dv[i].tried + 1
+          /\ (m.forced = 0 => m.tried <= dv[i].max)
+(* C06: a finished iteration of a recurring job gets exactly one successor: counter 0, ttl clock *)
+(* restarted, strictly in the future, at most one period ahead, at least one period after the     *)
+(* scheduled time of the iteration that just ran.                                                 *)
+RecurOk(i, op, m) ==
+    (ph[i] = "ended" /\ Disposition(out[i], dv[i].tried, dv[i].max, dv[i].rec) = "resched") =>
+        /\ op = "requeue"
+        /\ m.tried = 0
         /\ m.due > now /\ m.due <= m.nowP
         /\ m.due >= m.schedP
         /\ m.ts = now
@@ -135,8 +147,8 @@ WShadow ==
                        /\ UNCHANGED <<ph, dv, out, nact, running, started, wc>>
       [] Is("begin") /\ Ev.op \in Terminal /\ ByWorker(Ev.c) ->
                        /\ Has("dispo") => DispoOk(Ev.i, Ev.op, Ev.m)
-                       /\ (Has("retry") /\ Ev.op = "requeue") => RetryOk(Ev.i, Ev.m)
-                       /\ (Has("recur") /\ Ev.op = "requeue") => RecurOk(Ev.i, Ev.m)
+                       /\ Has("retry") => RetryOk(Ev.i, Ev.op, Ev.m)
+                       /\ Has("recur") => RecurOk(Ev.i, Ev.op, Ev.m)
                        /\ nact' = [nact EXCEPT ![Ev.i] = @ + 1]
                        /\ UNCHANGED <<ph, dv, out, cw, running, started, wc>>
       [] Is("end") /\ Call(Ev.k).op \in Terminal /\ ByWorker(Call(Ev.k).c) ->
